@@ -263,5 +263,5 @@ Proof.
 Qed.
 
 (* a lock-wrapped object rebuilt from its pickled state has the same lock and the same storage *)
-Theorem rebuild_wrapper_same w : rebuild_wrapper (reduce_wrapper w) = w.
+Theorem rebuild_wrapper_same w fresh : rebuild_wrapper (reduce_wrapper w) fresh = w.
 Proof. destruct w as [[b sz] l]. reflexivity. Qed.
